@@ -269,13 +269,23 @@ StringStep == [][gMode = "InString" => /\ gKept'[gPos'] = 1
                                        /\ (gMode' = "Code") <=> (gText'[gPos'] = DQ)]_scanVars
 DepthStep == [][gDepth' - gDepth \in {-1, 0, 1}]_scanVars
 
-\* binding A: every explored string with the model's result, one JSON line per string
-MaskCase ==
-  LET f == Final([mode |-> gMode, depth |-> gDepth, pend |-> gPend, kept |-> gKept, pos |-> gPos, open |-> gOpen], {})
-  IN [s |-> Implode(gText), b |-> Implode(BlankChars(gText, gKept)), e |-> IF f.ok THEN "ok" ELSE f.why, at |-> f.at, m |-> gMode]
+\* binding A: every explored string with the model's result, one JSON object per string.  A state
+\* whose text p has even length writes one line: p and, for every extension of p by one or two
+\* characters (within MaxLen), the extension x with the result for p \o x; the empty text adds itself.
+CaseOf(R, x) ==
+  LET f == Final([mode |-> R.mode, depth |-> R.depth, pend |-> R.pend, kept |-> R.kept, pos |-> Len(R.text), open |-> R.open], {})
+  IN [x |-> x, b |-> Implode(BlankChars(R.text, R.kept)), e |-> IF f.ok THEN "ok" ELSE f.why, at |-> f.at, m |-> R.mode]
+MaskCases ==
+  LET al == SetToSeq(Alphabet)
+      one == ForceSeq([j \in 1..Len(al) |-> RunStep(gRun, al[j])])
+      c1 == [j \in 1..Len(al) |-> CaseOf(one[j], al[j])]
+      c2 == IF gPos + 2 > MaxLen THEN <<>>
+            ELSE FlattenSeq([j \in 1..Len(al) |-> [q \in 1..Len(al) |-> CaseOf(RunStep(one[j], al[q]), al[j] \o al[q])]])
+  IN (IF gPos = 0 THEN <<CaseOf(gRun, "")>> ELSE <<>>) \o c1 \o c2
 EmitMask ==
-  Serialize(ToJson(MaskCase) \o "\n", IOEnv.OUT_FILE,
-            [format |-> "TXT", charset |-> "UTF-8", openOptions |-> <<"WRITE", "CREATE", "APPEND">>]).exitValue = 0
+  (gPos % 2 = 0 /\ gPos < MaxLen) =>
+    Serialize(ToJson([p |-> Implode(gText), items |-> MaskCases]) \o "\n", IOEnv.OUT_FILE,
+              [format |-> "TXT", charset |-> "UTF-8", openOptions |-> <<"WRITE", "CREATE", "APPEND">>]).exitValue = 0
 
 Alphabet7 == {"-", "/", "*", DQ, NL, "a", SP}
 
